@@ -489,6 +489,7 @@ func EnumTables(p *load.Prog, r *oblig.Report, rule string, lg *g4.Grammar, back
 		return
 	}
 	strip := ""
+	var enumCases []string
 	cutsetTrim := ""
 	containers := map[string]bool{}
 	for _, hd := range p.WithHelpers(ppk, pfd, 2) {
@@ -528,10 +529,28 @@ func EnumTables(p *load.Prog, r *oblig.Report, rule string, lg *g4.Grammar, back
 					if tv, ok := ppk.TypesInfo.Types[e]; ok && tv.Value != nil && tv.Value.Kind() == constant.String && constant.StringVal(tv.Value) != "" {
 						containers[constant.StringVal(tv.Value)] = true
 					}
+					// the enum value itself singled out (case ConditionParamTypeRef_TYPE_NAME_LIST): its spelling
+					var name string
+					switch id := ast.Unparen(e).(type) {
+					case *ast.Ident:
+						name = id.Name
+					case *ast.SelectorExpr:
+						name = id.Sel.Name
+					}
+					if i := strings.Index(name, "TYPE_NAME_"); i >= 0 {
+						if tv, ok := ppk.TypesInfo.Types[e]; ok && tv.Value != nil && tv.Value.Kind() == constant.Int {
+							enumCases = append(enumCases, strings.ToLower(name[i+len("TYPE_NAME_"):]))
+						}
+					}
 				}
 			}
 			return true
 		})
+	}
+	if len(containers) == 0 {
+		for _, c := range enumCases {
+			containers[c] = true
+		}
 	}
 	if strip == "" {
 		r.Unknown(rule, "anchor:printer-prefix", p.Pos(pfd.Pos()), "no strings.ReplaceAll(…, <const>, …) found in parseConditionParams")
